@@ -429,6 +429,35 @@ func runC14(r *core.Run) {
 			root, _ := h.Build(s)
 			return s, root, nil
 		}, datamodel.Kind_Bytes, c05Case{Kind: "hand", Hand: h.Label})
+		// lazy reification depends on the node alone, not on what the store can
+		// serve: with every other block of the DAG unavailable Reify and the
+		// "unixfs" reifier still give the file view over the loaded node
+		s := store.New()
+		root, _ := h.Build(s)
+		ls := lsFor(s)
+		rn, err := loadRoot(ls, root)
+		if err != nil {
+			return
+		}
+		for _, c := range s.Cids() {
+			if !c.Equals(root) {
+				s.Missing[string(c.Hash())] = store.NotFound
+			}
+		}
+		for _, how := range []string{"Reify", "unixfs"} {
+			var n datamodel.Node
+			var rerr error
+			if p, pv := core.Guard(func() { n, rerr = openVia(how, ls, rn) }); p {
+				r.Violate("panic reify nothing-else-available "+how, fmt.Sprintf("%s: %v", h.Label, pv), nil)
+				continue
+			}
+			r.Transitions.Add(1)
+			if rerr != nil || n == nil {
+				r.Violate("lazy-reify-depends-on-store "+how, fmt.Sprintf("%s: with only the root block available %s returns %v (with the whole DAG available it returns the file view)", h.Label, how, rerr), c05Case{Kind: "hand", Hand: h.Label})
+			} else if n.Kind() != datamodel.Kind_Bytes {
+				r.Violate("lazy-reify-depends-on-store "+how, fmt.Sprintf("%s: with only the root block available %s returns kind %v", h.Label, how, n.Kind()), c05Case{Kind: "hand", Hand: h.Label})
+			}
+		}
 	})
 	u := gen.Universe(8)
 	var masks []int
